@@ -17,7 +17,7 @@ import (
 // environment deviation; any difference in the consensus transcript is a violation.
 func ReplicaExtra(prop, tier string, shard, of int) ExtraResult {
 	res := ExtraResult{Notes: map[string]interface{}{}, Exhaustive: true}
-	scripts := []*replica.Script{ScriptStorage(false), ScriptStaking(), ScriptTies(), ScriptSidRewards(), ScriptGovParams()}
+	scripts := []*replica.Script{ScriptStorage(false), ScriptStaking(), ScriptTies(), ScriptSidRewards(), ScriptGovParams(), ScriptSuperRound()}
 	if tier == "thorough" {
 		scripts = append(scripts, ScriptStorage(true))
 	}
@@ -61,13 +61,28 @@ func ReplicaExtra(prop, tier string, shard, of int) ExtraResult {
 			}
 			if !long {
 				for p := 0; p < positions; p++ {
+					// quick tier: the transactions around the current stream position (the ones a mempool would hold);
+					// thorough: every transaction of the script at every position
+					near := func(j int) bool {
+						if tier == "thorough" {
+							return true
+						}
+						cur := p * ntx / positions
+						return j >= cur-6 && j <= cur+12
+					}
 					for j := 0; j < ntx; j++ {
-						one(replica.Deviation{Kind: "simulate", Pos: p, Arg: int64(j)})
+						if near(j) {
+							one(replica.Deviation{Kind: "simulate", Pos: p, Arg: int64(j)})
+						}
 					}
 					for j := 0; j < ntx; j += 3 {
-						one(replica.Deviation{Kind: "checktx", Pos: p, Arg: int64(j)})
+						if near(j) {
+							one(replica.Deviation{Kind: "checktx", Pos: p, Arg: int64(j)})
+						}
 					}
 					one(replica.Deviation{Kind: "query", Pos: p, Arg: -1}) // the whole query menu at once
+					// "how long the process has been running": one replica restarts from its database here
+					one(replica.Deviation{Kind: "restart", Pos: p})
 					if tier == "thorough" {
 						for wd := int64(1); wd <= 8; wd++ {
 							one(replica.Deviation{Kind: "mapword", Pos: p, Arg: wd})
@@ -82,7 +97,9 @@ func ReplicaExtra(prop, tier string, shard, of int) ExtraResult {
 				one(replica.Deviation{Kind: "midcrash", Pos: p})
 				if !long {
 					for j := 0; j < ntx; j++ {
-						one(replica.Deviation{Kind: "simulate", Pos: p, Arg: int64(j)})
+						if cur := p * ntx / positions; tier == "thorough" || (j >= cur-6 && j <= cur+12) {
+							one(replica.Deviation{Kind: "simulate", Pos: p, Arg: int64(j)})
+						}
 					}
 				}
 			}
